@@ -391,8 +391,9 @@ func checkC03(p *Prog, r *Report) {
 		})
 	}
 	checkDeferKeepsError(p, r)
+	checkWindowFullyRead(p, r, "C03/SENDER-READ-WINDOW")
 	r.Trust("MD4 detects corruption (probabilistic); renameio.CloseAtomicallyReplace is the only operation that makes the temp file visible under the final name")
-	r.Uncovered("that the peer's trailer is the hash of what the peer read; probability of MD4 collisions")
+	r.Uncovered("that the peer's trailer is the hash of what the peer read beyond the window-fill clause (C03/SENDER-READ-WINDOW); probability of MD4 collisions")
 }
 
 func checkVerifyGate(p *Prog, r *Report, fn *ssa.Function, closeCall ssa.CallInstruction, seedField, connReader *types.Var) {
